@@ -11,8 +11,25 @@ from hirlib import callee, local_of, peel, peel_refs, walk
 LEN_CHANGING = {"push_front": +1, "push_back": +1, "pop_front": -1, "pop_back": -1, "insert": +1, "remove": -1, "swap_remove_front": -1, "swap_remove_back": -1, "truncate": 0, "clear": 0}
 
 
+def _plain(q):
+    while q.get("k") == "Ref":
+        q = q["pat"]
+    return q.get("k") in ("Binding", "Wild")
+
+
+def _struct_fields(p):
+    """[(field name, pattern)] of a struct pattern"""
+    out = []
+    for it in p.get("fields", []) or []:
+        if isinstance(it, list) and len(it) == 2:
+            out.append((it[0], it[1]))
+        elif isinstance(it, dict) and "pat" in it:
+            out.append((it.get("name"), it["pat"]))
+    return out
+
+
 def is_irrefutable_some(p):
-    """Some((a, b)) with plain bindings / wildcards inside"""
+    """Some(<view>) where <view> is a plain binding, a tuple of plain bindings or a struct pattern of plain bindings"""
     while p.get("k") in ("Ref",):
         p = p["pat"]
     if p.get("k") == "TupleStruct" and p.get("variant") == "Some" and p.get("adt") == "std::option::Option":
@@ -22,7 +39,9 @@ def is_irrefutable_some(p):
         if inner.get("k") in ("Binding", "Wild"):
             return True
         if inner.get("k") == "Tuple":
-            return all(q.get("k") in ("Binding", "Wild") or (q.get("k") == "Ref" and q["pat"].get("k") in ("Binding", "Wild")) for q in inner["pats"])
+            return all(_plain(q) for q in inner["pats"])
+        if inner.get("k") == "Struct" and not inner.get("variant_refutable"):
+            return all(_plain(q) for (_n, q) in _struct_fields(inner))
     return False
 
 
@@ -30,16 +49,27 @@ def is_none_pat(p):
     return p.get("variant") == "None" and p.get("adt") == "std::option::Option"
 
 
+END_SELECTOR = ["1"]  # which component of the view is its end: tuple index or field name (from NumbatList::len)
+
+
 def end_binding(p):
-    """binding id of the second tuple component of Some((start, end))"""
+    """binding id of the `end` component of Some(<view>) — second tuple component / the field that len() uses as
+    the minuend"""
+    sel = END_SELECTOR[0]
     while p.get("k") in ("Ref",):
         p = p["pat"]
     if p.get("k") == "TupleStruct" and p.get("pats"):
         inner = p["pats"][0]
         while inner.get("k") in ("Ref",):
             inner = inner["pat"]
-        if inner.get("k") == "Tuple" and len(inner["pats"]) == 2:
-            q = inner["pats"][1]
+        q = None
+        if inner.get("k") == "Tuple" and sel.isdigit() and len(inner["pats"]) > int(sel):
+            q = inner["pats"][int(sel)]
+        elif inner.get("k") == "Struct":
+            for (name, fp) in _struct_fields(inner):
+                if str(name) == sel:
+                    q = fp
+        if q is not None:
             while q.get("k") == "Ref":
                 q = q["pat"]
             if q.get("k") == "Binding":
@@ -47,9 +77,27 @@ def end_binding(p):
     return None
 
 
+def find_end_selector(crate, file_suffix):
+    """In NumbatList::len the length of a view is `<view>.<end> - <view>.<start>`: the minuend names the end."""
+    for d, b in crate.hir.items():
+        if crate.file_of(b).endswith(file_suffix) and d.endswith("::len"):
+            for n in walk(b["body"]):
+                if n.get("k") == "Binary" and str(n.get("op")) in ("Sub", "-"):
+                    l = peel_refs(n["l"])
+                    r = peel_refs(n["r"])
+                    if l.get("k") == "Field" and r.get("k") == "Field" and local_of(l["e"]) is not None and local_of(l["e"]) == local_of(r["e"]):
+                        return str(l["name"])
+    return None
+
+
 def rule_listview(crate, file_suffix="numbat/src/list.rs"):
     out = RuleOut("LISTVIEW", "the view window is adjusted with every change of the backing deque's length")
     n_sites = 0
+    sel = find_end_selector(crate, file_suffix)
+    if sel is None:
+        out.error("anchor missing: NumbatList::len does not compute `view.<end> - view.<start>`; cannot tell which component of the view is its end")
+        return out
+    END_SELECTOR[0] = sel
     for d, b in crate.hir.items():
         if not crate.file_of(b).endswith(file_suffix):
             continue
@@ -78,8 +126,48 @@ def rule_listview(crate, file_suffix="numbat/src/list.rs"):
             if not isinstance(node, dict):
                 return
             k = node.get("k")
+            if k == "Block":
+                # statements in order: a let-else on the view or a diverging `if view.is_none() {..; return}`
+                # fixes the status of the REST of the block
+                cur_status, cur_end = status, end_id
+                seq = list(node.get("stmts", [])) + ([node["tail"]] if node.get("tail") is not None else [])
+                for st in seq:
+                    inner = st.get("e") if st.get("k") in ("Semi", "Expr") and isinstance(st.get("e"), dict) else st
+                    if st.get("k") == "Let" and st.get("els") is not None and st.get("init") is not None and local_of(st["init"]) in view_ids:
+                        if is_irrefutable_some(st["pat"]):
+                            visit(st["els"], "none", None)
+                            cur_status, cur_end = "some", end_binding(st["pat"])
+                        elif is_none_pat(st["pat"]):
+                            visit(st["els"], "maybe", None)
+                            cur_status, cur_end = "none", None
+                        else:
+                            visit(st["els"], "maybe", None)
+                            cur_status, cur_end = "some", end_binding(st["pat"])
+                        continue
+                    visit(st, cur_status, cur_end)
+                    if isinstance(inner, dict) and inner.get("k") == "If" and inner.get("else") is None:
+                        c2 = peel(inner["cond"])
+                        neg = False
+                        while c2.get("k") == "Unary" and c2.get("op") == "Not":
+                            neg = not neg
+                            c2 = peel(c2["e"])
+                        if c2.get("k") == "MethodCall" and c2["name"] in ("is_none", "is_some") and local_of(c2["recv"]) in view_ids and diverges(inner["then"]):
+                            then_is_none = (c2["name"] == "is_none") != neg
+                            cur_status, cur_end = ("some", None) if then_is_none else ("none", None)
+                return
             if k == "If":
                 c = peel(node["cond"])
+                neg = False
+                c3 = c
+                while c3.get("k") == "Unary" and c3.get("op") == "Not":
+                    neg = not neg
+                    c3 = peel(c3["e"])
+                if c3.get("k") == "MethodCall" and c3["name"] in ("is_none", "is_some") and local_of(c3["recv"]) in view_ids:
+                    then_is_none = (c3["name"] == "is_none") != neg
+                    visit(node["then"], "none" if then_is_none else "some", None)
+                    if node.get("else") is not None:
+                        visit(node["else"], "some" if then_is_none else "none", None)
+                    return
                 if c.get("k") == "Let" and local_of(c["init"]) in view_ids:
                     if is_irrefutable_some(c["pat"]):
                         visit(node["then"], "some", end_binding(c["pat"]))
@@ -145,6 +233,19 @@ def rule_listview(crate, file_suffix="numbat/src/list.rs"):
     out.analysed = {"length_changing_sites": n_sites}
     out.floor("length_changing_sites", n_sites, 4)
     return out
+
+
+def diverges(block):
+    b = peel(block)
+    if b.get("k") != "Block":
+        return b.get("k") in ("Ret", "Continue", "Break")
+    seq = list(b.get("stmts", [])) + ([b["tail"]] if b.get("tail") is not None else [])
+    if not seq:
+        return False
+    last = seq[-1]
+    e = last.get("e") if last.get("k") in ("Semi", "Expr") else last
+    e = peel(e) if isinstance(e, dict) else {}
+    return e.get("k") in ("Ret", "Continue", "Break")
 
 
 def enclosing_block(root, node):
